@@ -4,6 +4,7 @@ import (
 	"fmt"
 	"math"
 	"reflect"
+	"regexp"
 	"sort"
 	"strconv"
 	"strings"
@@ -55,6 +56,9 @@ func universe() []uval {
 		host("float32(1.5)", func() interface{} { return float32(1.5) }),
 		lit(`""`), lit(`"a"`), lit(`"12"`), lit(`"1.5"`), lit(`"-3"`), lit(`" 1"`), lit(`"0x10"`), lit(`"1e3"`), lit(`"abc"`), lit(`"é日"`),
 		lit(`"true"`), lit(`"y"`), lit(`"9223372036854775808"`),
+		// decimal numerals with leading zeros (base-10 value), and the digits 8/9 after a zero
+		lit(`"0"`), lit(`"010"`), lit(`"0100"`), lit(`"-0755"`), lit(`"00012"`), lit(`"007"`), lit(`"08"`), lit(`"-09"`), lit(`"018"`),
+		lit(`"0b11"`), lit(`"+010"`),
 		lit("[]"), lit("[1, 2]"), lit(`[1, "a", nil, 1.5]`), lit("[[1], []]"), lit(`["a", "b"]`),
 		lit("{}"), lit(`{"a": 1}`), lit(`{"a": 1, "b": "x"}`),
 		host("[]int64{1, 2}", func() interface{} { return []int64{1, 2} }),
@@ -90,7 +94,7 @@ func universeByName(name string) (uval, bool) {
 // element pool of the lists fed to the typed-slice forms
 func elemPool() []uval {
 	names := []string{"nil", "true", "false", "0", "1", "97", "-1", "2147483648", "9223372036854775807",
-		"1.5", "-1.5", "float64(1e300)", "NaN", `""`, `"a"`, `"12"`, `"1.5"`, `"é日"`, "[1, 2]", `{"a": 1}`, "[]byte(ab)"}
+		"1.5", "-1.5", "float64(1e300)", "NaN", `""`, `"a"`, `"12"`, `"1.5"`, `"é日"`, `"010"`, `"-0755"`, "[1, 2]", `{"a": 1}`, "[]byte(ab)"}
 	var out []uval
 	for _, n := range names {
 		u, ok := universeByName(n)
@@ -262,11 +266,21 @@ func isContainer(k string) bool {
 
 // string classes for toInt / toFloat
 var (
-	decimalInts   = map[string]bool{"12": true, "-3": true}
+	decimalIntRe  = regexp.MustCompile(`^-?[0-9]+$`) // leading zeros are still decimal: "010" denotes ten
 	decimalFracs  = map[string]bool{"1.5": true}
-	underDetStrs  = map[string]bool{" 1": true, "0x10": true, "1e3": true, "9223372036854775808": true}
+	underDetStrs  = map[string]bool{" 1": true, "0x10": true, "0b11": true, "+010": true, "1e3": true, "9223372036854775808": true}
 	nonNumericStr = map[string]bool{"": true, "a": true, "abc": true, "é日": true, "true": true, "y": true}
 )
+
+// isDecimalInt: optional minus sign, decimal digits (leading zeros allowed),
+// representable in int64.  An explicit plus sign is left under-determined.
+func isDecimalInt(s string) bool {
+	if !decimalIntRe.MatchString(s) {
+		return false
+	}
+	_, err := strconv.ParseInt(s, 10, 64)
+	return err == nil
+}
 
 func floatInInt64Range(f float64) bool {
 	return !math.IsNaN(f) && !math.IsInf(f, 0) && f > -9.2e18 && f < 9.2e18
@@ -292,7 +306,7 @@ func refToInt(v interface{}) expectation {
 	case "string":
 		s := rv.String()
 		switch {
-		case decimalInts[s]:
+		case isDecimalInt(s):
 			n, _ := strconv.ParseInt(s, 10, 64)
 			return wantValue(n)
 		case decimalFracs[s]:
@@ -326,7 +340,7 @@ func refToFloat(v interface{}) expectation {
 	case "string":
 		s := rv.String()
 		switch {
-		case decimalInts[s], decimalFracs[s]:
+		case isDecimalInt(s), decimalFracs[s]:
 			f, _ := strconv.ParseFloat(s, 64)
 			return wantValue(f)
 		case nonNumericStr[s]:
@@ -499,7 +513,7 @@ func elemAllowed(el interface{}, target string) []interface{} {
 			// Go cannot convert a string to int64 (zero value), toInt parses it
 			out := []interface{}{int64(0)}
 			s := rv.String()
-			if decimalInts[s] {
+			if isDecimalInt(s) {
 				n, _ := strconv.ParseInt(s, 10, 64)
 				out = append(out, n)
 			}
@@ -521,7 +535,7 @@ func elemAllowed(el interface{}, target string) []interface{} {
 		case "string":
 			s := rv.String()
 			out := []interface{}{float64(0)}
-			if decimalInts[s] || decimalFracs[s] {
+			if isDecimalInt(s) || decimalFracs[s] {
 				f, _ := strconv.ParseFloat(s, 64)
 				out = append(out, f)
 			} else if !nonNumericStr[s] {
